@@ -58,6 +58,9 @@ func c02GenDoc(r *Rng, alphaName, leName string) string {
 		return r.Pick(les) + r.Pick(les) + r.Pick(les)
 	}
 	var sb strings.Builder
+	if r.Chance(1, 8) {
+		sb.WriteString("\ufeff") // the document's first character is U+FEFF: for the protocol an ordinary character of line 0
+	}
 	n := r.Range(1, 8)
 	for i := 0; i < n; i++ {
 		sb.WriteString(c02GenLine(r, alpha))
